@@ -119,8 +119,14 @@ def exec_step(world, step, idx):
         try:
             app = server_of(world).get_app(step["app"])
             when = world.wall()
+            from .seams import srv
+            refused = 0
             for name in step["names"]:
-                app.claim_nameplate(name, step["side"], when)
+                try:
+                    app.claim_nameplate(name, step["side"], when)
+                except (srv.CrowdedError, srv.ReclaimedError):
+                    refused += 1
+            ev.notes["bulk_refused"] = refused
             ev.notes["bulk"] = len(step["names"])
         except Exception as e:
             ev.errors.append({"kind": "harness_error", "text": "bulk claim failed: %r" % (e,)})
